@@ -298,7 +298,15 @@ where
     }
 
     pub fn entry(&'_ mut self, key: Handle) -> Entry<'_, T> {
-        let ind = self.find_ind(key);
+        let mut ind = self.find_ind(key);
+        if unsafe { *self.handles.as_ptr().add(ind) } != key
+            && (self.count + 1) as f32 > self.capacity as f32 * MAX_LOAD
+        {
+            // a vacant entry will be filled in: make room first, like `insert` does, otherwise the
+            // table fills up completely and probing never terminates
+            self.grow().expect("Failed to grow the HandleTable");
+            ind = self.find_ind(key);
+        }
 
         let pl = unsafe {
             if *self.handles.as_ptr().add(ind) != key {
